@@ -105,9 +105,9 @@ func corrupt(r Rng, id string, kind string) string {
 			f[pos] = f[pos] + " "
 		}
 	case "alpha":
-		f[pos] = []string{"a", "x7", "3b", "NaN"}[r.Intn(4)]
+		f[pos] = []string{"a", "x7", "3b", "NaN", "0x1F", "0b11", "0o17", "1_0", "0x"}[r.Intn(9)]
 	case "float":
-		f[pos] = []string{"1.5", "2.0", "1e3"}[r.Intn(3)]
+		f[pos] = []string{"1.5", "2.0", "1e3", "0x1p4", "1."}[r.Intn(5)]
 	case "overflow":
 		f[pos] = []string{"9223372036854775808", "-9223372036854775809", "99999999999999999999"}[r.Intn(3)]
 	case "fullwidth":
